@@ -4,6 +4,7 @@ import (
 	"context"
 
 	"github.com/failsafe-go/failsafe-go/common"
+	"github.com/failsafe-go/failsafe-go/internal/verifhook"
 )
 
 // Run executes the fn, with failures being handled by the policies, until successful or until the policies are exceeded.
@@ -237,7 +238,9 @@ func (e *executor[R]) executeAsync(fn func(exec Execution[R]) (R, error), withEx
 		cancelFunc: cancelFunc,
 		doneChan:   make(chan any, 1),
 	}
+	verifhook.Yield("async.beforeStart")
 	go func() {
+		verifhook.Yield("async.runner.start")
 		result.record(e.execute(fn, exec, withExec))
 	}()
 	return result
